@@ -269,6 +269,7 @@ pub(super) fn build_action(a: &Value) -> Action {
             std::iter::once("VERIF/USD".parse::<astria_core::oracles::price_feed::types::v2::CurrencyPair>().unwrap()).collect(),
         )
         .into(),
+        "markets_change" => crate::test_utils::dummy_markets_change().into(),
         other => panic!("unknown action kind {other}"),
     }
 }
@@ -291,6 +292,7 @@ fn fee_change(kind: &str, b: u128, m: u128) -> FeeChange {
         "ics20_withdrawal" => FeeChange::Ics20Withdrawal(FeeComponents::new(b, m)),
         "ibc_relay" => FeeChange::IbcRelay(FeeComponents::new(b, m)),
         "pairs_change" => FeeChange::CurrencyPairsChange(FeeComponents::new(b, m)),
+        "markets_change" => FeeChange::MarketsChange(FeeComponents::new(b, m)),
         other => panic!("unknown fee kind {other}"),
     }
 }
@@ -354,6 +356,7 @@ fn put_fee(state: &mut StateDelta<Snapshot>, kind: &str, b: u128, m: u128) {
         FeeChange::Ics20Withdrawal(f) => state.put_fees(f),
         FeeChange::IbcRelay(f) => state.put_fees(f),
         FeeChange::CurrencyPairsChange(f) => state.put_fees(f),
+        FeeChange::MarketsChange(f) => state.put_fees(f),
         _ => unreachable!(),
     }
     .unwrap();
